@@ -157,11 +157,20 @@ const NAMES: &[&str] = &[
 ];
 
 fn name(r: &mut Rng) -> String {
-    if r.chance(1, 12) {
-        let n = r.usize_below(40);
-        (0..n).map(|_| (b'a' + r.below(26) as u8) as char).collect()
-    } else {
-        (*r.pick(NAMES)).to_string()
+    match r.below(12) {
+        0 => {
+            let n = r.usize_below(40);
+            (0..n).map(|_| (b'a' + r.below(26) as u8) as char).collect()
+        }
+        1 | 2 => {
+            // strings of every UTF-8 width at every alignment, up to ~120 bytes
+            const ALPHABET: &[char] = &['a', 'Z', '0', ' ', 'é', 'ß', 'Ж', '名', '前', '€', '🙂', '𝄞', '\u{7f}', '\u{a0}', '\u{fffd}'];
+            let n = r.usize_below(48);
+            let mono = r.chance(1, 3);
+            let c0 = *r.pick(ALPHABET);
+            (0..n).map(|_| if mono { c0 } else { *r.pick(ALPHABET) }).collect()
+        }
+        _ => (*r.pick(NAMES)).to_string(),
     }
 }
 
@@ -181,7 +190,7 @@ fn user_data(r: &mut Rng, on: bool) -> Option<UserData> {
 }
 
 fn small(r: &mut Rng, typical: u64, rare: u64) -> u64 {
-    if r.chance(1, 16) {
+    if r.chance(1, 9) {
         1 + r.below(rare)
     } else {
         1 + r.below(typical)
@@ -496,6 +505,12 @@ pub fn gen_spec(r: &mut Rng) -> SpriteSpec {
             let th = small(r, 6, 17) as u16;
             let count = small(r, 5, 20) as u32;
             let n = count as usize * tw as usize * th as usize;
+            // every third extra tileset has exactly the shape of the first one
+            let (tw, th, count) = match (k > 0 && r.chance(1, 3), s.tilesets.first()) {
+                (true, Some(t0)) => (t0.tw, t0.th, t0.count),
+                _ => (tw, th, count),
+            };
+            let n = count as usize * tw as usize * th as usize;
             s.tilesets.push(TilesetSpec {
                 id: if r.chance(5, 6) { k as u32 } else { 10 + 3 * k as u32 },
                 flags: 2 | if r.chance(3, 4) { 4 } else { 0 },
@@ -634,6 +649,32 @@ pub fn gen_spec(r: &mut Rng) -> SpriteSpec {
                 body,
                 ud: user_data(r, f_ud),
                 extra: r.chance(1, 10),
+            });
+        }
+    }
+
+    // one sprite in 16 carries a big cel as its very last chunk: payloads beyond 4 KiB and 64 KiB
+    // (block sizes of typical read loops) placed where truncation and I/O faults land last
+    if r.chance(1, 16) {
+        if let Some(li) = s.layers.iter().rposition(|l| l.kind == 0) {
+            let (bw, bh) = *r.pick(&[(40u16, 40u16), (64, 64), (100, 100), (128, 129), (200, 100)]);
+            let fi = (nframes - 1) as u16;
+            s.cels.retain(|c| !(c.layer as usize == li && c.frame == fi));
+            s.cels.push(CelSpec {
+                frame: fi,
+                layer: li as u16,
+                x: 0,
+                y: 0,
+                opacity: 255,
+                body: CelBody::Raw {
+                    w: bw,
+                    h: bh,
+                    pixels: pixels(r, fmt, bw as usize * bh as usize, &dom),
+                    compressed: r.chance(1, 2),
+                    level: r.below(10) as u32,
+                },
+                ud: None,
+                extra: false,
             });
         }
     }
@@ -1137,6 +1178,9 @@ pub const BUGS: &[&str] = &[
     "link-chain",
     "sparse-palette-gap",
     "bomb-with-links",
+    "link-to-tilemap",
+    "many-palette-packets",
+    "chunk-size-boundary",
 ];
 
 fn ensure_tilemap(s: &mut SpriteSpec, r: &mut Rng) -> usize {
@@ -1358,7 +1402,33 @@ pub fn apply_bug(s: &mut SpriteSpec, bug: &str, r: &mut Rng, scale: usize) -> St
                 }
                 index_domain(s)
             };
-            let bad = (0..=255u8).rev().find(|b| !dom.contains(b));
+            // which missing index: the highest, a random one, or the transparent index itself
+            // (shifting the palette up by one if needed so that it really is missing)
+            let missing: Vec<u8> = (0..=255u8).filter(|b| !dom.contains(b)).collect();
+            let mut bad = match r.below(3) {
+                0 => missing.last().copied(),
+                1 if !missing.is_empty() => Some(*r.pick(&missing)),
+                _ => {
+                    if let Some(p) = &mut s.palette {
+                        if p.first <= s.transparent as u32 {
+                            p.first = s.transparent as u32 + 1;
+                        }
+                    }
+                    Some(s.transparent)
+                }
+            };
+            let dom = index_domain(s);
+            let dom = if dom.is_empty() { vec![0u8] } else { dom };
+            if let Some(b) = bad {
+                if dom.contains(&b) {
+                    bad = (0..=255u8).rev().find(|x| !dom.contains(x));
+                }
+            }
+            if r.chance(1, 2) {
+                if let Some(l) = s.layers.iter_mut().find(|l| l.kind == 0) {
+                    l.flags |= 0x0c; // background layer
+                }
+            }
             for c in &mut s.cels {
                 if let CelBody::Raw { w, h, pixels: p, .. } = &mut c.body {
                     *p = pixels(r, Fmt::Indexed, *w as usize * *h as usize, &dom);
@@ -2028,7 +2098,7 @@ pub fn apply_bug(s: &mut SpriteSpec, bug: &str, r: &mut Rng, scale: usize) -> St
         }
         "bomb-with-links" => {
             // one big, highly compressible, truthfully declared cel and many cels linked to it
-            let side = (scale.clamp(1, 64) * 64) as u16;
+            let side = (scale.clamp(1, 128) * 64) as u16;
             let nlinks = 48usize;
             s.durations = vec![100; nlinks + 1];
             s.tags.clear();
@@ -2092,6 +2162,56 @@ pub fn apply_bug(s: &mut SpriteSpec, bug: &str, r: &mut Rng, scale: usize) -> St
             }
             format!("{}x{} compressible cel + {} linked cels", side, side, nlinks)
         }
+        "link-to-tilemap" => {
+            // a linked cel whose target is a tilemap cel (same tilemap layer, another frame)
+            let i = ensure_tilemap(s, r);
+            let (layer, tf) = (s.cels[i].layer, s.cels[i].frame);
+            if s.durations.len() < 2 {
+                s.durations.push(100);
+            }
+            let nf = s.durations.len() as u16;
+            let free = (0..nf).find(|f| *f != tf && !s.cels.iter().any(|c| c.layer == layer && c.frame == *f));
+            let f = match free {
+                Some(f) => f,
+                None => {
+                    s.durations.push(100);
+                    nf
+                }
+            };
+            s.cels.push(CelSpec {
+                frame: f,
+                layer,
+                x: 0,
+                y: 0,
+                opacity: 255,
+                body: CelBody::Linked(tf),
+                ud: None,
+                extra: false,
+            });
+            format!("cel (f{},l{}) linked to the tilemap cel of frame {}", f, layer, tf)
+        }
+        "many-palette-packets" => {
+            // a long, well-formed legacy palette: `scale` packets with large skips
+            let n = scale.clamp(2, 65535);
+            if s.fmt == Fmt::Indexed {
+                s.fmt = Fmt::Rgba;
+                for c in &mut s.cels {
+                    if let CelBody::Raw { w, h, pixels: p, .. } = &mut c.body {
+                        *p = vec![3; *w as usize * *h as usize * 4];
+                    }
+                }
+                for t in &mut s.tilesets {
+                    t.pixels = vec![3; t.count as usize * t.tw as usize * t.th as usize * 4];
+                }
+            }
+            s.palette = None;
+            let ty = if r.chance(1, 2) { 0x0004 } else { 0x0011 };
+            let skip = *r.pick(&[255u8, 255, 200, 40, 1]);
+            let packets = (0..n).map(|_| (skip, vec![[1u8, 2, 3]])).collect();
+            s.legacy = Some((ty, packets));
+            format!("{} legacy palette packets with skip {}", n, skip)
+        }
+        "chunk-size-boundary" => "one chunk padded to a boundary payload size (applied on bytes)".into(),
         "dangling-user-data" => {
             // user data in a file with no preceding attachable entity
             s.layers[0].ud = None;
@@ -2120,6 +2240,39 @@ pub fn encode_with_bug(s: &SpriteSpec, opts: &EncOpts, bug: Option<&str>, r: &mu
             if let Some(f) = m.fields.iter().find(|f| f.chunk == "extfiles" && f.name == "entries") {
                 let v = *r.pick(&[0xFFFF_FFFFu32, 0x7FFF_FFFF, 0x1000_0000, 0x0010_0000]);
                 crate::format::put32(&mut bytes, f.off, v);
+            }
+        }
+        "chunk-size-boundary" => {
+            // pad one chunk (extra bytes at a chunk's end are legal and ignored) so that its
+            // payload has exactly a boundary size
+            if !m.chunks.is_empty() {
+                let ci = r.usize_below(m.chunks.len());
+                let c = &m.chunks[ci];
+                let k = 8 + r.below(10) as u32; // 2^8 .. 2^17
+                let target = match r.below(6) {
+                    0 => (1usize << k) - 1,
+                    1 => 1usize << k,
+                    2 => (1usize << k) + 1,
+                    3 => 65536 * (1 + r.usize_below(3)),
+                    4 => 65536 * (1 + r.usize_below(3)) + *r.pick(&[6usize, 5, 7]),
+                    _ => 65536 - 6,
+                };
+                let payload = c.size - 6;
+                if target > payload {
+                    let pad = target - payload;
+                    let at = c.off + c.size;
+                    let (fstart, _) = m.frames[c.frame];
+                    let fill = r.byte();
+                    let tail = bytes.split_off(at);
+                    bytes.extend(std::iter::repeat(fill).take(pad));
+                    bytes.extend_from_slice(&tail);
+                    let csz = crate::format::get(&bytes, c.off, 4) as u32 + pad as u32;
+                    crate::format::put32(&mut bytes, c.off, csz);
+                    let fsz = crate::format::get(&bytes, fstart, 4) as u32 + pad as u32;
+                    crate::format::put32(&mut bytes, fstart, fsz);
+                    let total = bytes.len() as u32;
+                    crate::format::put32(&mut bytes, 0, total);
+                }
             }
         }
         "tag-ud-overflow" | "dangling-user-data" => {
